@@ -430,6 +430,56 @@ theorem supplemented_rejects_more (Infer : InferFn)
   obtain ⟨e, he⟩ := h
   exact ⟨e, by simp [constructSupplemented, he]⟩
 
+/-! ### Value propagation does not touch the types -/
+
+/-- **types_ignore_values**: whatever the value-propagation backend computes (or fails to compute)
+    — off, reference, onnxruntime, all operands constant or not — the call raises exactly as
+    `construct` does and the output Vars carry exactly `construct`'s types, i.e. by `eager_agrees`
+    `stripUnk` of what the judgement assigned: a known value never sharpens (or weakens) a type. -/
+theorem types_ignore_values (Infer : InferFn)
+    (prop : Call → List (String × Option Ty) → List (String × String)) (c : Call) :
+    (match constructVP Infer prop c with
+      | .error e => Except.error e
+      | .ok outs => Except.ok (outs.map (fun (o : OutVar) => (o.key, o.ty)))) = construct Infer c := by
+  unfold constructVP
+  cases h : construct Infer c with
+  | error e => rfl
+  | ok tys =>
+    simp only [List.map_map]
+    congr 1
+    conv => rhs; rw [← List.map_id tys]
+    apply List.map_congr_left
+    intro p _
+    rfl
+
+/-- two backends can only differ in the attached values, never in accept/reject or in a type -/
+theorem backends_agree_on_types (Infer : InferFn)
+    (prop1 prop2 : Call → List (String × Option Ty) → List (String × String)) (c : Call) :
+    (match constructVP Infer prop1 c with
+      | .error e => Except.error e
+      | .ok outs => Except.ok (outs.map (fun (o : OutVar) => (o.key, o.ty)))) =
+    (match constructVP Infer prop2 c with
+      | .error e => Except.error e
+      | .ok outs => Except.ok (outs.map (fun (o : OutVar) => (o.key, o.ty)))) := by
+  rw [types_ignore_values, types_ignore_values]
+
+/-- a value is attached only to an output whose type is known -/
+theorem values_only_on_typed (Infer : InferFn)
+    (prop : Call → List (String × Option Ty) → List (String × String)) (c : Call)
+    (outs : List OutVar) (h : constructVP Infer prop c = .ok outs) :
+    ∀ o ∈ outs, o.ty = none → o.val = none := by
+  unfold constructVP at h
+  cases hc : construct Infer c with
+  | error e => rw [hc] at h; cases h
+  | ok tys =>
+    rw [hc] at h
+    simp only [Except.ok.injEq] at h
+    intro o ho hty
+    rw [← h] at ho
+    obtain ⟨p, _, rfl⟩ := List.mem_map.mp ho
+    simp only at hty
+    simp [hty]
+
 /-! ### No state between calls -/
 
 /-- **construct_history_free**: in any sequence of constructor calls every call is answered as if it
